@@ -14,6 +14,8 @@
                     BroadcastTruthful / BroadcastComplete.                                                        *)
 EXTENDS TMGossipSys, TraceKit
 
+CONSTANT StrictGaps     \* named gaps to be reported as GossipComplete violations (demonstration of a gap on real code); {} normally
+
 Trace == LoadTrace("trace.ndjson")
 TGPW == [v \in Vals |-> 1]
 TGPS == <<"v0", "v1", "v2", "v3">>
@@ -178,6 +180,7 @@ StepQuiesce(e) ==
   IN /\ viol' = viol
           \cup (IF e.reached THEN {Viol("GossipComplete", "lack:" \o q.c) : q \in lk} \cup {Viol("GossipComplete", "claim:" \o TName(c.t)) : c \in cm}
                 ELSE {Viol("GossipComplete", "no_rest")})
+          \cup {Viol("GossipComplete", "gap:" \o q.c) : q \in {g \in gp : e.reached /\ g.c \in StrictGaps}}
      /\ drift' = drift \cup {Drift("gap:" \o q.c, "named gap") : q \in gp}
                        \cup FailIf(e.reached /\ ~(DataIdle(n, prs) /\ VotesIdle(n, prs)), Drift("at rest, but the model's routines have something to send", "rest"))
      /\ Same
